@@ -1,9 +1,9 @@
 (* Sync / Close / Open / crash images of the AHtree (model: run2, aht_step2 in Merkle/AHT.v).
-   For EVERY history of Append / ResetSize / restart / crash image the tree satisfies the digest-log
-   invariant and holds exactly the payload list of the specification spec_run2: a restart is
-   invisible whenever an append is buffered or the commit log holds `size` entries; a restart right
-   after a ResetSize that no append followed brings the pre-rewind content back (the commit-log file
-   is only cut when the next append is synced) — consistently: no mixing of old and new digests. *)
+   For EVERY history of Append / ResetSize / restart / crash image the tree is, state for state,
+   the tree of the history without the restarts in which every crash image is a ResetSize:
+   restarts are invisible, and opening an image whose payload and digest logs extend beyond what the
+   commit log commits is a rewind to the committed size.  (Before /repo 6a85281 a ResetSize that no
+   append followed was lost at a restart, before 09014a8 every rewind was.) *)
 From V Require Import Merkle.AHT Merkle.AHTArith Merkle.AHTSpec Merkle.AHTInv Merkle.AHTMain.
 From Coq Require Import Lia ZifyN ZifyNat ZifyBool.
 Open Scope N_scope.
@@ -22,39 +22,31 @@ Proof.
   lia.
 Qed.
 
-(* the files, read as a tree of c elements, are a good tree *)
-Definition FileOk (t : aht) (c : N) : Prop := Inv H (mkAht (plog t) (dlog t) c (nodes_upto c)).
-
-Lemma FileOk_self t : Inv H t -> FileOk t (size t).
+(* OpenWith on files that hold at least c committed elements = ResetSize to c *)
+Lemma reopen_is_reset t c : Inv H t -> c <= size t -> reopen_at t c = reset_size t c.
 Proof.
-  intros I. unfold FileOk. pose proof I as (_ & Ed & _). rewrite <- Ed. destruct t; exact I.
-Qed.
-
-Lemma reopen_file t c : FileOk t c -> reopen_at t c = Ok (mkAht (plog t) (dlog t) c (nodes_upto c)).
-Proof.
-  intros F. pose proof F as (Lp & _). pose proof (inv_dlog_len _ F) as DL. cbn [size plog dlog dsize] in *.
-  unfold reopen_at. destruct (N.ltb_spec (lenN (plog t)) c); [lia|].
-  destruct (N.ltb_spec (lenN (dlog t)) (nodes_upto c)); [lia|]. reflexivity.
-Qed.
-
-Lemma FileOk_prefix t c c' : FileOk t c -> c' <= c -> FileOk t c'.
-Proof.
-  intros F Le. unfold FileOk in *.
-  destruct (reset_ok H _ c' F Le) as (t' & E & I' & _).
-  unfold reset_size in E. cbn [size plog dlog dsize] in E.
-  destruct (N.ltb_spec c c'); [lia|].
-  destruct (N.eqb_spec c c') as [->|NE]; [exact F|].
-  assert (D : (if 0 <? c' then nodes_upto c' else 0) = nodes_upto c').
-  { destruct (N.ltb_spec 0 c'); [reflexivity|]. replace c' with 0 by lia. reflexivity. }
-  rewrite D in E. destruct ((0 <? c') && (lenN (dlog t) <? nodes_upto c')); [discriminate|].
-  injection E as <-. exact I'.
+  intros I Le. pose proof I as (Lp & Ed & _). pose proof (inv_dlog_len t I) as DL.
+  destruct (reset_ok H t c I Le) as (t' & E & I' & _ & St). rewrite E.
+  pose proof I' as (Lp' & Ed' & _). pose proof (inv_dlog_len t' I') as DL'.
+  unfold reset_size in E. destruct (N.ltb_spec (size t) c); [lia|].
+  unfold reopen_at.
+  destruct (N.eqb_spec (size t) c) as [Es|NE].
+  - injection E as <-. subst c. rewrite <- Ed.
+    destruct (N.ltb_spec (lenN (plog t)) (size t)); [lia|].
+    destruct (N.ltb_spec (lenN (dlog t)) (dsize t)); [lia|]. destruct t; reflexivity.
+  - assert (D : (if 0 <? c then nodes_upto c else 0) = nodes_upto c).
+    { destruct (N.ltb_spec 0 c); [reflexivity|]. replace c with 0 by lia. reflexivity. }
+    rewrite D in E. destruct ((0 <? c) && (lenN (dlog t) <? nodes_upto c)); [discriminate|].
+    injection E as <-. cbn [size plog dlog dsize] in *.
+    destruct (N.ltb_spec (lenN (plog t)) c); [lia|].
+    destruct (N.ltb_spec (lenN (dlog t)) (nodes_upto c)); [lia|]. reflexivity.
 Qed.
 
 (* restart with a commit log of exactly `size` entries: the very same state *)
 Theorem reopen_ok t : Inv H t -> reopen_at t (size t) = Ok t.
 Proof.
-  intros I. rewrite (reopen_file t (size t) (FileOk_self t I)).
-  pose proof I as (_ & Ed & _). rewrite <- Ed. destruct t; reflexivity.
+  intros I. rewrite (reopen_is_reset t (size t) I (N.le_refl _)).
+  unfold reset_size. rewrite N.ltb_irrefl, N.eqb_refl. reflexivity.
 Qed.
 
 (* a crash image (commit log cut to c <= size entries, longer payload and digest logs) opens as
@@ -62,141 +54,81 @@ Qed.
 Theorem crash_image_is_prefix t c : Inv H t -> c <= size t ->
   exists t', reopen_at t c = Ok t' /\ Inv H t' /\
              payloads t' = firstn (N.to_nat c) (payloads t) /\ size t' = c.
+Proof. intros I Le. rewrite (reopen_is_reset t c I Le). apply reset_ok; assumption. Qed.
+
+(* ---- runs with restarts ---- *)
+Definition Inv2 (s : run2) : Prop :=
+  Inv H (rtree s) /\ (dirty s = false -> centries s = size (rtree s)).
+
+Lemma sync2_inv s : Inv2 s -> Inv2 (sync2 s) /\ rtree (sync2 s) = rtree s /\ centries (sync2 s) = size (rtree s).
 Proof.
-  intros I Le. pose proof (FileOk_prefix t (size t) c (FileOk_self t I) Le) as F.
-  eexists. split; [apply (reopen_file t c F)|]. split; [exact F|]. split; [|reflexivity].
-  unfold payloads. cbn [size plog]. rewrite firstn_firstn. f_equal. lia.
+  intros (I & C). unfold sync2. destruct (dirty s) eqn:Ed; cbn [rtree centries dirty].
+  - split; [split; [exact I | reflexivity]|]. auto.
+  - split; [split; [exact I | intros _; apply C; reflexivity]|]. split; [reflexivity | apply C; reflexivity].
 Qed.
 
-Lemma reset_logs t k t' : reset_size t k = Ok t' -> plog t' = plog t /\ dlog t' = dlog t.
+Lemma step2_sim s o : Inv2 s ->
+  Inv2 (aht_step2 H s o) /\
+  rtree (aht_step2 H s o) =
+  match o with
+  | A2 d => aht_step H (rtree s) (OAppend d)
+  | R2 k => aht_step H (rtree s) (OReset k)
+  | Reopen2 => rtree s
+  | Crash2 c => aht_step H (rtree s) (OReset c)
+  end.
 Proof.
-  unfold reset_size. destruct (size t <? k); [discriminate|].
-  destruct (size t =? k); [intros E; injection E as <-; auto|].
-  destruct (_ && _); [discriminate|]. intros E; injection E as <-. auto.
+  intros I2. pose proof I2 as (I & C). destruct o as [d|k| |c]; cbn [aht_step2 aht_step].
+  - destruct (append_ok H (rtree s) d I) as (t' & E & I' & _). rewrite E. cbn [rtree].
+    split; [split; [exact I' | discriminate] | reflexivity].
+  - destruct (N.leb_spec (size (rtree s)) k) as [Le|Gt].
+    + split; [exact I2|]. unfold reset_size.
+      destruct (N.ltb_spec (size (rtree s)) k); [reflexivity|].
+      destruct (N.eqb_spec (size (rtree s)) k); [reflexivity | lia].
+    + destruct (sync2_inv s I2) as (_ & Et & _). rewrite Et.
+      destruct (reset_ok H (rtree s) k I ltac:(lia)) as (t' & E & I' & _ & St). rewrite E. cbn [rtree].
+      split; [split; [exact I' | intros _; cbn [centries rtree]; lia] | reflexivity].
+  - destruct (sync2_inv s I2) as (I2' & Et & Ec). rewrite Et, Ec, (reopen_ok _ I). cbn [rtree].
+    split; [split; [exact I | reflexivity] | reflexivity].
+  - destruct (sync2_inv s I2) as (I2' & Et & Ec). rewrite Ec, Et.
+    destruct (N.ltb_spec (size (rtree s)) c) as [Gt|Le].
+    + rewrite Et. split; [exact I2'|]. unfold reset_size.
+      destruct (N.ltb_spec (size (rtree s)) c); [reflexivity | lia].
+    + rewrite (reopen_is_reset _ c I Le).
+      destruct (reset_ok H (rtree s) c I Le) as (t' & E & I' & _ & St). rewrite E. cbn [rtree].
+      split; [split; [exact I' | intros _; cbn [centries rtree]; lia] | reflexivity].
 Qed.
 
-Ltac split_inv2 := split; [ | split; [ | split; [ | intros _; split; [ | split ] ] ] ].
-
-(* ---- the invariant of runs with restarts ---- *)
-Definition Inv2 (s : run2) (sp : spec2) : Prop :=
-  let '(L, D, b) := sp in
-  Inv H (rtree s) /\ payloads (rtree s) = L /\ dirty s = b /\
-  (b = false -> size (rtree s) <= centries s /\ FileOk (rtree s) (centries s) /\
-                firstn (N.to_nat (centries s)) (plog (rtree s)) = D).
-
-Lemma sync2_inv s sp : Inv2 s sp -> Inv2 (sync2 s) (spec_sync sp) /\ snd (spec_sync sp) = false.
+(* restarts are invisible and a crash image is a rewind: state for state *)
+Theorem aht_run2_is_run (ops : list aop2) :
+  Inv2 (aht_run2 H ops) /\ rtree (aht_run2 H ops) = aht_run H (strip2 ops).
 Proof.
-  destruct sp as [[L D] b]. intros (I & P & Db & F). unfold sync2, spec_sync. rewrite Db.
-  destruct b.
-  - split; [|reflexivity]. cbn [Inv2 rtree centries dirty].
-    split_inv2; [exact I | exact P | reflexivity | lia | apply FileOk_self; exact I | exact P].
-  - split; [|reflexivity]. cbn [Inv2]. auto.
+  unfold aht_run2, aht_run.
+  assert (G : forall s t, Inv2 s -> rtree s = t ->
+              Inv2 (fold_left (aht_step2 H) ops s) /\
+              rtree (fold_left (aht_step2 H) ops s) = fold_left (aht_step H) (strip2 ops) t).
+  { induction ops as [|o ops IH]; intros s t I E; cbn [fold_left strip2]; [auto|].
+    destruct (step2_sim s o I) as [I' E']. rewrite E in E'.
+    destruct o; cbn [strip2 fold_left]; apply IH; auto. }
+  apply G; [|reflexivity]. split; [apply Inv_empty | reflexivity].
 Qed.
 
-Lemma step2_inv s sp o : Inv2 s sp -> Inv2 (aht_step2 H s o) (spec_step2 sp o).
+(* in particular a restart never changes the tree *)
+Theorem restart_invisible (ops : list aop2) :
+  rtree (aht_run2 H (ops ++ [Reopen2])) = rtree (aht_run2 H ops).
 Proof.
-  intros I2. destruct o as [d|k| |c].
-  - (* Append *)
-    destruct sp as [[L D] b]. destruct I2 as (I & P & Db & F). cbn [aht_step2 spec_step2].
-    destruct (append_ok H (rtree s) d I) as (t' & E & I' & P' & _). rewrite E.
-    cbn [Inv2 rtree dirty]. split; [exact I'|]. split; [rewrite P', P; reflexivity|]. split; [reflexivity|]. discriminate.
-  - (* ResetSize *)
-    cbn [aht_step2]. destruct sp as [[L D] b]. pose proof I2 as (I & P & Db & F).
-    pose proof I as (Lp & _). pose proof (payloads_length (rtree s) Lp) as PL. rewrite P in PL.
-    cbn [spec_step2]. rewrite PL.
-    destruct (N.leb_spec (size (rtree s)) k) as [Le|Gt]; [exact I2|].
-    destruct (sync2_inv s (L, D, b) I2) as [S2 Sb].
-    destruct (spec_sync (L, D, b)) as [[L' D'] b'] eqn:Es. cbn [snd] in Sb. subst b'.
-    assert (EL : L' = L) by (unfold spec_sync in Es; destruct b; congruence). subst L'.
-    destruct S2 as (I' & P' & Db' & F'). destruct (F' eq_refl) as (Sz & FO & ED).
-    assert (Et : rtree (sync2 s) = rtree s) by (unfold sync2; destruct (dirty s); reflexivity).
-    rewrite Et in *.
-    destruct (reset_ok H (rtree s) k I ltac:(lia)) as (t' & E & It & Pt & St).
-    rewrite E. destruct (reset_logs _ _ _ E) as [Epl Edl].
-    cbn [Inv2 rtree centries dirty].
-    split_inv2; [exact It | rewrite Pt, P; reflexivity | reflexivity | lia | | rewrite Epl; exact ED].
-    unfold FileOk in *. rewrite Epl, Edl. exact FO.
-  - (* Close + Open *)
-    cbn [aht_step2 spec_step2].
-    destruct (sync2_inv s sp I2) as [S2 Sb].
-    destruct (spec_sync sp) as [[L' D'] b'] eqn:Es. cbn [snd] in Sb. subst b'.
-    destruct S2 as (I' & P' & Db' & F'). destruct (F' eq_refl) as (Sz & FO & ED).
-    rewrite (reopen_file _ _ FO). cbn [Inv2 rtree centries dirty].
-    split_inv2; [exact FO | exact ED | reflexivity | cbn [size]; lia | exact FO | exact ED].
-  - (* crash image *)
-    cbn [aht_step2 spec_step2].
-    destruct (sync2_inv s sp I2) as [S2 Sb].
-    destruct (spec_sync sp) as [[L' D'] b'] eqn:Es. cbn [snd] in Sb. subst b'.
-    pose proof S2 as (I' & P' & Db' & F'). destruct (F' eq_refl) as (Sz & FO & ED).
-    assert (LD : lenN D' = centries (sync2 s)).
-    { pose proof FO as (Lp & _). cbn [size plog] in Lp. rewrite <- ED. unfold lenN in *. rewrite firstn_length. lia. }
-    rewrite LD.
-    destruct (N.ltb_spec (centries (sync2 s)) c) as [Gt|Le].
-    + cbn [Inv2]. split_inv2; [exact I' | exact P' | exact Db' | exact Sz | exact FO | exact ED].
-    + pose proof (FileOk_prefix _ _ c FO Le) as FC.
-      rewrite (reopen_file _ _ FC). cbn [Inv2 rtree centries dirty].
-      assert (EP : firstn (N.to_nat c) (plog (rtree (sync2 s))) = firstn (N.to_nat c) D').
-      { rewrite <- ED, firstn_firstn. f_equal. lia. }
-      split_inv2; [exact FC | exact EP | reflexivity | cbn [size]; lia | exact FC | exact EP].
-Qed.
-
-Theorem aht_run2_inv (ops : list aop2) : Inv2 (aht_run2 H ops) (spec_run2 ops).
-Proof.
-  unfold aht_run2, spec_run2.
-  assert (G : forall s sp, Inv2 s sp -> Inv2 (fold_left (aht_step2 H) ops s) (fold_left spec_step2 ops sp)).
-  { induction ops as [|o ops IH]; intros s sp I; cbn [fold_left]; [exact I|].
-    apply IH. apply step2_inv. exact I. }
-  apply G. cbn [Inv2 rtree dirty centries].
-  split_inv2; [apply Inv_empty | reflexivity | reflexivity | cbn; lia | unfold FileOk; cbn; apply Inv_empty | reflexivity].
-Qed.
-
-(* hence: whatever the history, the tree is observationally the tree obtained by appending the
-   specified payload list to an empty tree *)
-Theorem aht_run2_observables (ops : list aop2) :
-  let t := rtree (aht_run2 H ops) in
-  let L := fst (fst (spec_run2 ops)) in
-  let t0 := aht_run H (map OAppend L) in
-  payloads t = L /\ size t = size t0 /\
-  (forall n, root_at t n = root_at t0 n) /\
-  (forall i j, inclusion_proof t i j = inclusion_proof t0 i j) /\
-  (forall i j, consistency_proof t i j = consistency_proof t0 i j).
-Proof.
-  intros t L t0. pose proof (aht_run2_inv ops) as I2.
-  destruct (spec_run2 ops) as [[L' D] b] eqn:Es. cbn [fst] in L. subst L.
-  destruct I2 as (I & P & _). fold t in I, P. split; [exact P|].
-  destruct (aht_run_inv H (map OAppend L')) as [I0 P0]. fold t0 in I0, P0.
-  apply (obs_payloads H t t0 I I0). rewrite P, P0. symmetry. apply final_payloads_appends.
-Qed.
-
-(* a restart while an append is buffered (or when the commit log holds `size` entries) is invisible *)
-Theorem restart_invisible s sp :
-  Inv2 s sp -> dirty s = true \/ centries s = size (rtree s) ->
-  rtree (aht_step2 H s Reopen2) = rtree s.
-Proof.
-  intros I2 C. destruct sp as [[L D] b]. destruct I2 as (I & _).
-  cbn [aht_step2]. unfold sync2. destruct (dirty s) eqn:Ed.
-  - cbn [rtree centries]. rewrite (reopen_ok _ I). reflexivity.
-  - destruct C as [C|C]; [discriminate|]. rewrite C, (reopen_ok _ I). reflexivity.
+  assert (S : strip2 (ops ++ [Reopen2]) = strip2 ops)
+    by (induction ops as [|[d|k| |c] ops IH]; cbn [app strip2]; rewrite ?IH; reflexivity).
+  destruct (aht_run2_is_run (ops ++ [Reopen2])) as [_ E1]. destruct (aht_run2_is_run ops) as [_ E2].
+  rewrite E1, E2, S. reflexivity.
 Qed.
 
 End Reopen.
 
-(* the former witness of "ahtree rewind not durable" (append x5, ResetSize(2), Append, Close, Open)
-   now gives size 3, for every hash function *)
-Definition rewind_witness : list aop2 :=
-  [A2 [0]; A2 [1]; A2 [2]; A2 [3]; A2 [4]; R2 2; A2 [9]; Reopen2].
+(* the former witnesses of "ahtree (bare) rewind not durable": the rewound size survives the
+   restart, for every hash function *)
 Example rewind_then_append_durable (H : bytes -> bytes) :
-  size (rtree (aht_run2 H rewind_witness)) = 3 /\ fst (fst (spec_run2 rewind_witness)) = [[0]; [1]; [9]].
-Proof. split; vm_compute; reflexivity. Qed.
-
-(* RESIDUAL (known finding "ahtree bare rewind not durable"): a ResetSize that no append follows is
-   lost at the next restart — ResetSize does not cut the commit-log file; the model has it. *)
-Definition bare_rewind_witness : list aop2 :=
-  [A2 [0]; A2 [1]; A2 [2]; A2 [3]; A2 [4]; R2 2; Reopen2].
-Theorem aht_bare_rewind_not_durable_refuted :
-  exists ops : list aop2,
-    forall H : bytes -> bytes,
-      size (rtree (aht_run2 H (ops ++ [Reopen2]))) <> size (rtree (aht_run2 H ops)).
-Proof.
-  exists [A2 [0]; A2 [1]; A2 [2]; A2 [3]; A2 [4]; R2 2]. intros H. vm_compute. discriminate.
-Qed.
+  size (rtree (aht_run2 H [A2 [0]; A2 [1]; A2 [2]; A2 [3]; A2 [4]; R2 2; A2 [9]; Reopen2])) = 3.
+Proof. vm_compute. reflexivity. Qed.
+Example bare_rewind_durable (H : bytes -> bytes) :
+  size (rtree (aht_run2 H [A2 [0]; A2 [1]; A2 [2]; A2 [3]; A2 [4]; R2 2; Reopen2])) = 2.
+Proof. vm_compute. reflexivity. Qed.
